@@ -537,6 +537,33 @@ pub fn long_templates() -> Shard {
     Shard { name: "long-templates".into(), scripts: v }
 }
 
+/// Count sweeps: every template kind with N further tokens in front of it or behind it, for EVERY N in 1..=600 and around
+/// 1024, 4096 and 65536, the tokens being OP_0, OP_1, OP_DROP, OP_NOP, OP_NOP1 or a one-byte push - whatever counts tokens,
+/// bytes or stack elements in a narrow integer, a byte of a packed word or a fixed-size table gets every count it could wrap at.
+pub fn count_sweeps(templates: &[(String, Vec<u8>)]) -> Shard {
+    let mut v: Vec<Vec<u8>> = Vec::new();
+    let mut counts: Vec<usize> = (1..=600).collect();
+    counts.extend([1023usize, 1024, 1025, 4095, 4096, 4097, 65_535, 65_536, 65_537]);
+    let fillers: [&[u8]; 6] = [&[0x00], &[0x51], &[0x75], &[0x61], &[0xb0], &[0x01, 0x07]];
+    for (name, t) in templates {
+        if name.ends_with("/1") || name.ends_with("/2") || name.starts_with("p2pk-g") {
+            continue;
+        }
+        for f in fillers {
+            for &n in &counts {
+                let fill: Vec<u8> = f.iter().cloned().cycle().take(f.len() * n).collect();
+                let mut x = t.clone();
+                x.extend_from_slice(&fill);
+                v.push(x);
+                let mut y = fill;
+                y.extend_from_slice(t);
+                v.push(y);
+            }
+        }
+    }
+    Shard { name: "count-sweeps".into(), scripts: v }
+}
+
 /// History dependence: `n` DISTINCT standard scripts (P2PKH / P2SH / P2PK / P2WPKH / OP_RETURN, the counter in the hash,
 /// key or payload) meant to be evaluated one after the other by ONE thread, with the first 2000 of them evaluated again after
 /// every 50 000: the result for a script must not depend on what the thread has evaluated before (memo tables, ring
